@@ -1864,6 +1864,12 @@ class NNDescent:
             xs_fresh = check_array(
                 xs_fresh, dtype=self._input_dtype, accept_sparse="csr", order="C"
             )
+        if self.metric == "dot":
+            # the index holds l2-normalised rows under this metric (see __init__)
+            if xs_fresh.shape[0] > 0:
+                xs_fresh = normalize(xs_fresh, norm="l2", copy=True)
+            if len(updated_indices) > 0:
+                xs_updated = normalize(xs_updated, norm="l2", copy=True)
         # data preparation
         if hasattr(self, "_vertex_order"):
             original_order = np.argsort(self._vertex_order)
